@@ -11,28 +11,26 @@ Definition d_2020_01_02 : pyval := PDate 2020 1 2.
 Definition dt_aware : pyval := PDateTime 2020 1 2 3 4 5 6 true.
 Definition dec_100 : pyval := PDec false 100 0.
 
-(* finding date_time_kind_unreadable: a DateTimeCol accepts a date, stores '2020-01-02', and every
-   load raises Invalid; create raises AFTER the INSERT *)
+(* fixed d26c1c0 (was finding date_time_kind_unreadable): a date handed to a DateTimeCol is midnight of
+   that day on every read path; a time is refused with nothing stored *)
 Lemma date_in_datetime_col C w var :
   let o := run C TDateTime d_2020_01_02 w var in
-  o_row o = true /\ o_stored o = SText [50; 48; 50; 48; 45; 48; 49; 45; 48; 50] /\ o_db o = Some (Raise E_Invalid) /\
-  o_write o = match w with WCreate => Raise E_Invalid | _ => Ok tt end.
+  o_write o = Ok tt /\ o_cache o = Some (Ok (PDateTime 2020 1 2 0 0 0 0 false)) /\
+  o_db o = Some (Ok (PDateTime 2020 1 2 0 0 0 0 false)) /\ o_found o = Some (Ok true).
+Proof. destruct w, var; vm_compute; repeat split; reflexivity. Qed.
+Lemma time_in_datetime_col C w var :
+  let o := run C TDateTime (PTime 1 2 3 0 false) w var in
+  o_write o = Raise E_Invalid /\ o_stored o = SNull.
+Proof. destruct w, var; vm_compute; split; reflexivity. Qed.
+
+(* fixed e4e0676 (was finding decimal_integral_read_as_int): Decimal('100') in DECIMAL(10,3) is held as
+   INTEGER 100 and every database read returns Decimal(100) *)
+Lemma integral_decimal C w var :
+  let o := run C (TDecimal 10 3) dec_100 w var in
+  o_write o = Ok tt /\ o_stored o = SInt 100 /\ o_db o = Some (Ok dec_100).
 Proof. destruct w, var; vm_compute; repeat split; reflexivity. Qed.
 
-Lemma date_in_datetime_col_inconsistent C w var : ~ consistent (run C TDateTime d_2020_01_02 w var).
-Proof.
-  pose proof (date_in_datetime_col C w var) as (Hrow & Hst & Hdb & Hw). unfold consistent. rewrite Hw.
-  destruct w; [rewrite Hst; discriminate| |]; intros (c & d & _ & Hd & _); rewrite Hdb in Hd; discriminate.
-Qed.
-
-Lemma accept_refuted :
-  exists T v, wf v = true /\ forall C w var, guard_engine C T v = true /\ ~ consistent (run C T v w var).
-Proof.
-  exists TDateTime, d_2020_01_02. split; [reflexivity|]. intros C w var. split; [reflexivity|].
-  apply date_in_datetime_col_inconsistent.
-Qed.
-
-(* finding tzinfo_dropped: an aware datetime is accepted, the writer keeps it, the row holds the naive text *)
+(* finding tzinfo_dropped (open): an aware datetime is accepted, the writer keeps it, the row holds the naive text *)
 Lemma aware_datetime C :
   let o := run C TDateTime dt_aware WSetattr VEager in
   o_write o = Ok tt /\ o_cache o = Some (Ok dt_aware) /\ o_db o = Some (Ok (PDateTime 2020 1 2 3 4 5 6 false)) /\
@@ -45,25 +43,11 @@ Proof.
   destruct Hs as [Hs|Hs]; [discriminate|]. rewrite Hne in Hs. discriminate.
 Qed.
 
-(* the equality query on such a row raises instead of finding it *)
-Lemma query_refuted :
-  exists T v, wf v = true /\ forall C, guard_engine C T v = true /\
-    o_write (run C T v WSetattr VEager) = Ok tt /\ o_found (run C T v WSetattr VEager) = Some (Raise E_Invalid).
-Proof. exists TDateTime, d_2020_01_02. split; [reflexivity|]. intros C. repeat split; reflexivity. Qed.
-
-(* finding decimal_integral_read_as_int: Decimal('100') in DECIMAL(10,3) is stored as INTEGER 100 and
-   every database read returns the int 100 *)
-Lemma integral_decimal C w var :
-  let o := run C (TDecimal 10 3) dec_100 w var in
-  o_write o = Ok tt /\ o_stored o = SInt 100 /\ o_db o = Some (Ok (PInt 100)).
-Proof. destruct w, var; vm_compute; repeat split; reflexivity. Qed.
-
-Lemma roundtrip_refuted :
-  exists T v, wf v = true /\ coltype_ok T = true /\ in_domain T v = true /\
-    forall C w var, exists d, o_db (run C T v w var) = Some (Ok d) /\ pytype d <> pytype v.
+Lemma accept_refuted :
+  exists T v w var, wf v = true /\ forall C, guard_engine C T v = true /\ ~ consistent (run C T v w var).
 Proof.
-  exists (TDecimal 10 3), dec_100. repeat split; try reflexivity. intros C w var.
-  pose proof (integral_decimal C w var) as (_ & _ & Hd). exists (PInt 100). split; [exact Hd|discriminate].
+  exists TDateTime, dt_aware, WSetattr, VEager. split; [reflexivity|]. intros C. split; [reflexivity|].
+  apply aware_datetime_inconsistent.
 Qed.
 
 (* ---- findings that live in sqlite's floating point: stated relative to the engine behaviour
@@ -97,4 +81,25 @@ Lemma float_misrounded C lit :
 Proof.
   intros Hr Hs. unfold run. cbn [fk_unwrap from_python v_float to_python]. unfold db_store. cbn [literal rbind].
   rewrite Hr. change (col_affinity TFloat) with AREAL. rewrite Hs. repeat split; reflexivity.
+Qed.
+
+(* finding decimal_stored_as_real: within DecimalCol(size=20, precision=2) *)
+Definition dec20_wit : pyval := PDec false 12345678901234567891 (-2).          (* 123456789012345678.91 *)
+Definition dec20_text : str := Eval vm_compute in dec_eng_string false 12345678901234567891 (-2).
+Lemma decimal_as_real C :
+  num_store C ANUMERIC dec20_text = Ok (SInt 123456789012345680) ->
+  let o := run C (TDecimal 20 2) dec20_wit WCreate VEager in
+  in_domain (TDecimal 20 2) dec20_wit = true /\
+  o_write o = Ok tt /\ o_db o = Some (Ok (PDec false 123456789012345680 0)) /\
+  pyeq dec20_wit (PDec false 123456789012345680 0) = false.
+Proof.
+  intros H. split; [reflexivity|]. unfold run. cbn [fk_unwrap from_python v_decimal_from to_python v_decimal_to dec20_wit].
+  unfold db_store. change (literal C dec20_wit) with (@Ok str dec20_text). cbn [rbind].
+  assert (Hs : sqlite_store C (col_affinity (TDecimal 20 2)) dec20_text = Ok (SInt 123456789012345680)).
+  { change (col_affinity (TDecimal 20 2)) with ANUMERIC. unfold sqlite_store.
+    change (contains c_nul dec20_text) with false. change (existsb is_surrogate dec20_text) with false.
+    change (str_eqb dec20_text s_NULL) with false. cbv iota.
+    change (int_of_text dec20_text) with (@None Z). change (numeric_start dec20_text) with true.
+    unfold dec20_text at 1. cbv iota beta. change (49 =? c_q) with false. cbv iota. exact H. }
+  rewrite Hs. repeat split; reflexivity.
 Qed.
